@@ -184,6 +184,53 @@ def check_slices(R, U):
     return spec_bad
 
 
+# ------------------------------------------------------------------ _getitem_batch_size: compile branch vs eager branch
+def check_gbs_dual(R, torch, U):
+    """the use site of the slice helper: _getitem_batch_size takes len(range(*_slice_indices(..))) when compiling and
+    len(range(*slice.indices(..))) otherwise; both branches on the whole slice grid and on generated index tuples"""
+    from . import c03
+    vals = [None] + list(range(-4, 5))
+    n_cases = 0
+    for n in range(0, 6):
+        for a in vals:
+            for b in vals:
+                for c in vals:
+                    if c == 0:
+                        continue
+                    idx = (slice(a, b, c),)
+                    eager = call(U._getitem_batch_size, torch.Size([n, 2]), idx)
+                    with forced_compile(U):
+                        comp = call(U._getitem_batch_size, torch.Size([n, 2]), idx)
+                    n_cases += 1
+                    eo = list(eager[1]) if eager[0] == "ok" else "raise"
+                    co = list(comp[1]) if comp[0] == "ok" else "raise"
+                    want = [len(range(*slice(a, b, c).indices(n))), 2]
+                    if eo != co or eo != want:
+                        R.oracle_fail("helpers:native-vs-python", {"helper": "_getitem_batch_size", "slice": [a, b, c], "len": n},
+                                      {"eager": eo, "compile_branch": co, "len(range(slice.indices))": want},
+                                      {"helper": "_getitem_batch_size"})
+    R.case(("gbs-slices", n_cases), nontrivial=True)
+    R.count("gbs_dual:slice-grid", n_cases)
+    m = 1500 if R.quick else 30000
+    for i in range(m):
+        bs = R.rng.choice(c03.SHAPES)
+        descs = c03.gen_index(R.rng, bs)
+        if any(d[0] == "ell" for d in descs) or not descs:
+            continue
+        idx = c03.to_py(descs)
+        eager = call(U._getitem_batch_size, torch.Size(bs), idx)
+        with forced_compile(U):
+            comp = call(U._getitem_batch_size, torch.Size(bs), idx)
+        R.case(("gbs-dual", tuple(bs), json.dumps(descs)), nontrivial=True)
+        R.count("gbs_dual:tuple")
+        eo = list(eager[1]) if eager[0] == "ok" else "raise"
+        co = list(comp[1]) if comp[0] == "ok" else "raise"
+        if eo != co:
+            R.oracle_fail("helpers:native-vs-python", {"helper": "_getitem_batch_size", "bs": list(bs), "index": descs},
+                          {"eager": eo, "compile_branch": co}, {"helper": "_getitem_batch_size"})
+    R.traces += n_cases + m
+
+
 # ------------------------------------------------------------------ batch-size spellings
 def check_parse_bs(R, torch, tensordict, TDM):
     TD = tensordict.TensorDict
@@ -321,6 +368,7 @@ def main(R):
         check_keys(R, U)
         spec_bad = check_slices(R, U)
         check_parse_bs(R, torch, tensordict, TDM)
+    check_gbs_dual(R, torch, U)
     check_items_list(R, torch, tensordict, B)
     check_programs(R, torch)
     if spec_bad:
